@@ -5,6 +5,8 @@ package rig
 
 import (
 	"errors"
+	"fmt"
+	"runtime"
 	"io"
 	"net"
 	"sync"
@@ -38,6 +40,7 @@ type Conn struct {
 	segIdx    int
 	closeOnce sync.Once
 
+	Trace     func(string) // debugging aid: called with a description of every completed operation
 	limitOut  int64 // >=0 when set: after this many bytes written the conn closes or stalls
 	limitMode string
 	limited   bool
@@ -78,6 +81,9 @@ func (c *Conn) Read(b []byte) (int, error) {
 	}
 	n, err := c.Conn.Read(b)
 	c.BytesIn.Add(int64(n))
+	if c.Trace != nil {
+		c.Trace(fmt.Sprintf("Read(%d) = %d, %v", len(b), n, err))
+	}
 	return n, err
 }
 
@@ -154,6 +160,10 @@ func (c *Conn) Write(b []byte) (int, error) {
 
 func (c *Conn) Close() error {
 	c.Closes.Add(1)
+	if c.Trace != nil {
+		buf := make([]byte, 4096)
+		c.Trace("Close() called from:\n" + string(buf[:runtime.Stack(buf, false)]))
+	}
 	c.mu.Lock()
 	if c.stallCh != nil {
 		c.closeOnce.Do(func() { close(c.stallCh) })
@@ -180,6 +190,9 @@ func (c *Conn) SetReadDeadline(t time.Time) error {
 	if err := c.op("SetReadDeadline"); err != nil {
 		return err
 	}
+	if c.Trace != nil {
+		c.Trace(fmt.Sprintf("SetReadDeadline(%v)", t))
+	}
 	return c.Conn.SetReadDeadline(t)
 }
 func (c *Conn) SetWriteDeadline(t time.Time) error {
@@ -196,6 +209,9 @@ func (c *Conn) Tee(dst *[]byte) { c.mu.Lock(); c.teeWrite = dst; c.mu.Unlock() }
 func (c *Conn) Segment(sizes []int) { c.mu.Lock(); c.segSizes = sizes; c.segIdx = 0; c.mu.Unlock() }
 
 // ---- listener --------------------------------------------------------------------------------
+
+// DebugServerTrace, when set, traces every accepted connection of proxy listeners (debugging aid).
+var DebugServerTrace func(string)
 
 var ErrListenerClosed = errors.New("memnet: listener closed")
 
@@ -253,7 +269,7 @@ type DialOpts struct {
 // Dial creates a pipe and hands the server side to Accept. It returns the client side and the
 // server-side wrapper (for Close counting). ok=false if the listener is closed.
 func (l *Listener) Dial(o DialOpts) (client *Conn, server *Conn, err error) {
-	cp, sp := net.Pipe()
+	cp, sp := newBufPipe()
 	l.mu.Lock()
 	l.portSeq++
 	seq := l.portSeq
@@ -263,7 +279,13 @@ func (l *Listener) Dial(o DialOpts) (client *Conn, server *Conn, err error) {
 		remote = &net.TCPAddr{IP: net.IPv4(192, 0, 2, byte(1+seq%200)), Port: 40000 + seq}
 	}
 	server = &Conn{Conn: sp, local: l.addr, remote: remote, hooks: o.ServerHooks}
+	if DebugServerTrace != nil && l.addr.(*net.TCPAddr).Port == 443 {
+		server.Trace = DebugServerTrace
+	}
 	client = &Conn{Conn: cp, local: remote, remote: l.addr}
+	if DebugServerTrace != nil && remote.Port == 50000 {
+		client.Trace = func(m string) { DebugServerTrace("[transport side] " + m) }
+	}
 	select {
 	case l.ch <- server:
 		l.mu.Lock()
